@@ -21,6 +21,12 @@ func judgeLegacyApply(c *core.Ctx, sc *SeqCase, neg bool) {
 	d["SupportNegativeIndices"] = neg
 	d["library_output"] = clip(string(res.Out), 1500)
 	d["library_error"] = errText(res.Err)
+	if res.Panic != nil && res.Panic.Deviation {
+		// (an earlier result changed under the caller: not a matter of this call's domain)
+		d["panic"] = panicDetail(res.Panic)
+		c.Violation("legacy:"+res.Panic.Sig(), d)
+		return
+	}
 	if want.OutOfDom != "" {
 		c.Count("out_of_domain")
 		c.Count("ood:" + want.OutOfDom)
